@@ -983,4 +983,443 @@ example : bid128_round_integral_zero ⟨5, 0x7e00000000000000⟩ 0x20 = .ok (⟨
 -- 34 nines with exponent −33 (the third word-position case: 33 digits removed) ↦ 9
 example : bid128_round_integral_zero ⟨0x378d8e63ffffffff, 0x2fffed09bead87c0⟩ 0 = .ok (⟨9, 0x3040000000000000⟩, 0) := by rfl
 
+/-! ## 5. Floor and ceiling -/
+
+/-- digit removal of `bid128_round_integral_negative` (the translated block, its mutable state as parameters) -/
+def floorMain (C1_ : U128) (x_sign : UInt64) (exp : Int32) (pfpsf_ : UInt32) : Except String (U128 × UInt32) := do
+  let mut res : U128 := default
+  let mut fstar : U256 := default
+  let mut shift : Int32 := default
+  let mut ind : Int32 := default
+  let mut tmp64 : UInt64 := default
+  let mut P256 : U256 := default
+  let mut C1 : U128 := C1_
+  let mut pfpsf : UInt32 := pfpsf_
+  ind := (-exp)
+  P256 := (← mul_128x128_to_256 C1 (← tbl128 Dec.Gen.BID_TEN2MK128 (UInt64.ofInt (toI ((ind - (1 : Int32)))))))
+  if (decide ((ind - (1 : Int32)) ≤ (2 : Int32))) then
+    res := { res with w1 := P256.w3 }
+    res := { res with w0 := P256.w2 }
+    if (x_sign != (0 : UInt64)) then
+      if (← (if ((decide (P256.w1 > (← tbl128 Dec.Gen.BID_TEN2MK128 (UInt64.ofInt (toI ((ind - (1 : Int32)))))).w1))) then pure true else (do pure ((← (if (P256.w1 == (← tbl128 Dec.Gen.BID_TEN2MK128 (UInt64.ofInt (toI ((ind - (1 : Int32)))))).w1) then (do pure ((decide (P256.w0 ≥ (← tbl128 Dec.Gen.BID_TEN2MK128 (UInt64.ofInt (toI ((ind - (1 : Int32)))))).w0)))) else pure false)))))) then
+        res := { res with w0 := (res.w0 + 1) }
+        if (res.w0 == (0 : UInt64)) then
+          res := { res with w1 := (res.w1 + 1) }
+  else
+    if (decide ((ind - (1 : Int32)) ≤ (0x15 : Int32))) then
+      shift := (← tblI32 Dec.Gen.BID_SHIFTRIGHT128 (UInt64.ofInt (toI ((ind - (1 : Int32))))))
+      res := { res with w1 := (P256.w3 >>> (UInt64.ofInt (toI shift))) }
+      res := { res with w0 := (((P256.w3 <<< (UInt64.ofInt (toI (((0x40 : Int32) - shift)))))) ||| ((P256.w2 >>> (UInt64.ofInt (toI shift))))) }
+      if (x_sign != (0 : UInt64)) then
+        fstar := { fstar with w2 := (P256.w2 &&& (← tbl64 Dec.Gen.BID_MASKHIGH128 (UInt64.ofInt (toI ((ind - (1 : Int32))))))) }
+        fstar := { fstar with w1 := P256.w1 }
+        fstar := { fstar with w0 := P256.w0 }
+        if (← (if (← (if (fstar.w2 != (0 : UInt64)) then pure true else (do pure (decide (fstar.w1 > (← tbl128 Dec.Gen.BID_TEN2MK128 (UInt64.ofInt (toI ((ind - (1 : Int32)))))).w1))))) then pure true else (do pure ((← (if (fstar.w1 == (← tbl128 Dec.Gen.BID_TEN2MK128 (UInt64.ofInt (toI ((ind - (1 : Int32)))))).w1) then (do pure (decide (fstar.w0 ≥ (← tbl128 Dec.Gen.BID_TEN2MK128 (UInt64.ofInt (toI ((ind - (1 : Int32)))))).w0))) else pure false)))))) then
+          res := { res with w0 := (res.w0 + 1) }
+          if (res.w0 == (0 : UInt64)) then
+            res := { res with w1 := (res.w1 + 1) }
+    else
+      shift := ((← tblI32 Dec.Gen.BID_SHIFTRIGHT128 (UInt64.ofInt (toI ((ind - (1 : Int32)))))) - (0x40 : Int32))
+      res := { res with w1 := (0 : UInt64) }
+      res := { res with w0 := (P256.w3 >>> (UInt64.ofInt (toI shift))) }
+      if (x_sign != (0 : UInt64)) then
+        fstar := { fstar with w3 := (P256.w3 &&& (← tbl64 Dec.Gen.BID_MASKHIGH128 (UInt64.ofInt (toI ((ind - (1 : Int32))))))) }
+        fstar := { fstar with w2 := P256.w2 }
+        fstar := { fstar with w1 := P256.w1 }
+        fstar := { fstar with w0 := P256.w0 }
+        if (← (if (← (if ((fstar.w3 != (0 : UInt64)) || (fstar.w2 != (0 : UInt64))) then pure true else (do pure (decide (fstar.w1 > (← tbl128 Dec.Gen.BID_TEN2MK128 (UInt64.ofInt (toI ((ind - (1 : Int32)))))).w1))))) then pure true else (do pure ((← (if (fstar.w1 == (← tbl128 Dec.Gen.BID_TEN2MK128 (UInt64.ofInt (toI ((ind - (1 : Int32)))))).w1) then (do pure (decide (fstar.w0 ≥ (← tbl128 Dec.Gen.BID_TEN2MK128 (UInt64.ofInt (toI ((ind - (1 : Int32)))))).w0))) else pure false)))))) then
+          res := { res with w0 := (res.w0 + 1) }
+          if (res.w0 == (0 : UInt64)) then
+            res := { res with w1 := (res.w1 + 1) }
+  res := { res with w1 := (res.w1 ||| (x_sign ||| (0x3040000000000000 : UInt64))) }
+  return (res, pfpsf)
+
+/-- digit removal of `bid128_round_integral_positive` (the translated block) -/
+def ceilMain (C1_ : U128) (x_sign : UInt64) (exp : Int32) (pfpsf_ : UInt32) : Except String (U128 × UInt32) := do
+  let mut res : U128 := default
+  let mut fstar : U256 := default
+  let mut shift : Int32 := default
+  let mut ind : Int32 := default
+  let mut tmp64 : UInt64 := default
+  let mut P256 : U256 := default
+  let mut C1 : U128 := C1_
+  let mut pfpsf : UInt32 := pfpsf_
+  ind := (-exp)
+  P256 := (← mul_128x128_to_256 C1 (← tbl128 Dec.Gen.BID_TEN2MK128 (UInt64.ofInt (toI ((ind - (1 : Int32)))))))
+  if (decide ((ind - (1 : Int32)) ≤ (2 : Int32))) then
+    res := { res with w1 := P256.w3 }
+    res := { res with w0 := P256.w2 }
+    if (x_sign == (0 : UInt64)) then
+      if (← (if ((decide (P256.w1 > (← tbl128 Dec.Gen.BID_TEN2MK128 (UInt64.ofInt (toI ((ind - (1 : Int32)))))).w1))) then pure true else (do pure ((← (if (P256.w1 == (← tbl128 Dec.Gen.BID_TEN2MK128 (UInt64.ofInt (toI ((ind - (1 : Int32)))))).w1) then (do pure ((decide (P256.w0 ≥ (← tbl128 Dec.Gen.BID_TEN2MK128 (UInt64.ofInt (toI ((ind - (1 : Int32)))))).w0)))) else pure false)))))) then
+        res := { res with w0 := (res.w0 + 1) }
+        if (res.w0 == (0 : UInt64)) then
+          res := { res with w1 := (res.w1 + 1) }
+  else
+    if (decide ((ind - (1 : Int32)) ≤ (0x15 : Int32))) then
+      shift := (← tblI32 Dec.Gen.BID_SHIFTRIGHT128 (UInt64.ofInt (toI ((ind - (1 : Int32))))))
+      res := { res with w1 := (P256.w3 >>> (UInt64.ofInt (toI shift))) }
+      res := { res with w0 := (((P256.w3 <<< (UInt64.ofInt (toI (((0x40 : Int32) - shift)))))) ||| ((P256.w2 >>> (UInt64.ofInt (toI shift))))) }
+      if (x_sign == (0 : UInt64)) then
+        fstar := { fstar with w2 := (P256.w2 &&& (← tbl64 Dec.Gen.BID_MASKHIGH128 (UInt64.ofInt (toI ((ind - (1 : Int32))))))) }
+        fstar := { fstar with w1 := P256.w1 }
+        fstar := { fstar with w0 := P256.w0 }
+        if (← (if (← (if (fstar.w2 != (0 : UInt64)) then pure true else (do pure (decide (fstar.w1 > (← tbl128 Dec.Gen.BID_TEN2MK128 (UInt64.ofInt (toI ((ind - (1 : Int32)))))).w1))))) then pure true else (do pure ((← (if (fstar.w1 == (← tbl128 Dec.Gen.BID_TEN2MK128 (UInt64.ofInt (toI ((ind - (1 : Int32)))))).w1) then (do pure (decide (fstar.w0 ≥ (← tbl128 Dec.Gen.BID_TEN2MK128 (UInt64.ofInt (toI ((ind - (1 : Int32)))))).w0))) else pure false)))))) then
+          res := { res with w0 := (res.w0 + 1) }
+          if (res.w0 == (0 : UInt64)) then
+            res := { res with w1 := (res.w1 + 1) }
+    else
+      shift := ((← tblI32 Dec.Gen.BID_SHIFTRIGHT128 (UInt64.ofInt (toI ((ind - (1 : Int32)))))) - (0x40 : Int32))
+      res := { res with w1 := (0 : UInt64) }
+      res := { res with w0 := (P256.w3 >>> (UInt64.ofInt (toI shift))) }
+      if (x_sign == (0 : UInt64)) then
+        fstar := { fstar with w3 := (P256.w3 &&& (← tbl64 Dec.Gen.BID_MASKHIGH128 (UInt64.ofInt (toI ((ind - (1 : Int32))))))) }
+        fstar := { fstar with w2 := P256.w2 }
+        fstar := { fstar with w1 := P256.w1 }
+        fstar := { fstar with w0 := P256.w0 }
+        if (← (if (← (if ((fstar.w3 != (0 : UInt64)) || (fstar.w2 != (0 : UInt64))) then pure true else (do pure (decide (fstar.w1 > (← tbl128 Dec.Gen.BID_TEN2MK128 (UInt64.ofInt (toI ((ind - (1 : Int32)))))).w1))))) then pure true else (do pure ((← (if (fstar.w1 == (← tbl128 Dec.Gen.BID_TEN2MK128 (UInt64.ofInt (toI ((ind - (1 : Int32)))))).w1) then (do pure (decide (fstar.w0 ≥ (← tbl128 Dec.Gen.BID_TEN2MK128 (UInt64.ofInt (toI ((ind - (1 : Int32)))))).w0))) else pure false)))))) then
+          res := { res with w0 := (res.w0 + 1) }
+          if (res.w0 == (0 : UInt64)) then
+            res := { res with w1 := (res.w1 + 1) }
+  res := { res with w1 := (res.w1 ||| (x_sign ||| (0x3040000000000000 : UInt64))) }
+  return (res, pfpsf)
+
+def rinFin (x : U128) (f : UInt32) (s e : UInt64) (C : U128) : Except String (U128 × UInt32) :=
+  if decide (e ≤ 0x2ffc000000000000) = true then
+    if (s != 0) = true then .ok (⟨1, 0xb040000000000000⟩, f) else .ok (⟨0, 0x3040000000000000⟩, f)
+  else
+    (countQ C).bind fun q =>
+      if decide (expOf e ≥ 0) = true then .ok (⟨x.w0, x.w1⟩, f)
+      else if decide (q + expOf e > 0) = true then floorMain C s (expOf e) f
+      else if (s != 0) = true then .ok (⟨1, 0xb040000000000000⟩, f) else .ok (⟨0, 0x3040000000000000⟩, f)
+
+def ripFin (x : U128) (f : UInt32) (s e : UInt64) (C : U128) : Except String (U128 × UInt32) :=
+  if decide (e ≤ 0x2ffc000000000000) = true then
+    if (s != 0) = true then .ok (⟨0, 0xb040000000000000⟩, f) else .ok (⟨1, 0x3040000000000000⟩, f)
+  else
+    (countQ C).bind fun q =>
+      if decide (expOf e ≥ 0) = true then .ok (⟨x.w0, x.w1⟩, f)
+      else if decide (q + expOf e > 0) = true then ceilMain C s (expOf e) f
+      else if (s != 0) = true then .ok (⟨0, 0xb040000000000000⟩, f) else .ok (⟨1, 0x3040000000000000⟩, f)
+
+/-- unfolding a routine into `frontEnd` and its finite part: both sides are inlined once, then the front-end cases, the
+tiny-exponent test `tiny`, the three bit-length cases and the three digit-count cases are split; each leaf is closed by
+pruning both sides with the case hypotheses -/
+syntax "ri_unfold " ident term:max term:max " [" ident,* "]" : tactic
+macro_rules
+  | `(tactic| ri_unfold $routine $x $tiny [$defs,*]) => `(tactic|
+    (unfold frontEnd
+     simp only [$routine:ident, $[$defs:ident],*, specialRes, zeroRes, countQ, nrBits, expOf, bind, Except.bind, pure, Except.pure]
+     by_cases h1 : (($x).w1 &&& c_MASK_SPECIAL == c_MASK_SPECIAL) = true
+     · simp only [h1, if_true]
+     · by_cases h2 : (($x).w1 &&& 0x6000000000000000 == 0x6000000000000000) = true
+       · by_cases hz : decide (($x).w1 <<< 2 &&& c_MASK_EXP ≤ (6176 : UInt64) <<< 49) = true <;>
+         simp only [h1, h2, hz, if_true, if_false, beq_self_eq_true, Bool.and_self, Bool.false_eq_true]
+       · by_cases h3 : (decide (($x).w1 &&& c_MASK_COEFF > 0x1ed09bead87c0) ||
+           ($x).w1 &&& c_MASK_COEFF == 0x1ed09bead87c0 && decide (($x).w0 > 0x378d8e63ffffffff)) = true
+         · by_cases hz : decide (($x).w1 &&& c_MASK_EXP ≤ (6176 : UInt64) <<< 49) = true <;>
+           simp only [h1, h2, h3, hz, if_true, if_false, beq_self_eq_true, Bool.and_self, Bool.false_eq_true]
+         · by_cases h4 : (($x).w1 &&& c_MASK_COEFF == 0 && ($x).w0 == 0) = true
+           · by_cases hz : decide (($x).w1 &&& c_MASK_EXP ≤ (6176 : UInt64) <<< 49) = true <;>
+             simp only [h1, h2, h3, h4, hz, if_true, if_false, beq_self_eq_true, Bool.and_self, Bool.false_eq_true]
+           · by_cases h5 : decide (($x).w1 &&& c_MASK_EXP ≤ $tiny) = true
+             · simp only [h1, h2, h3, h4, h5, if_true, if_false, Bool.false_eq_true]
+             · simp only [h1, h2, h3, h4, h5, if_true, if_false, Bool.false_eq_true]
+               by_cases h6 : (($x).w1 &&& c_MASK_COEFF == 0) = true
+               · by_cases h7 : decide (($x).w0 ≥ 9007199254740992) = true
+                 · simp only [h6, h7, if_true, if_false, Bool.false_eq_true]
+                   ri_digits (($x).w1 &&& c_MASK_COEFF) (($x).w0)
+                 · simp only [h6, h7, if_true, if_false, Bool.false_eq_true]
+                   ri_digits (($x).w1 &&& c_MASK_COEFF) (($x).w0)
+               · simp only [h6, if_true, if_false, Bool.false_eq_true]
+                 ri_digits (($x).w1 &&& c_MASK_COEFF) (($x).w0)))
+
+theorem rin_unfold (x : U128) (f : UInt32) :
+    bid128_round_integral_negative x f = frontEnd x f (rinFin x f) := by
+  ri_unfold bid128_round_integral_negative x 0x2ffc000000000000 [rinFin, floorMain]
+
+theorem rip_unfold (x : U128) (f : UInt32) :
+    bid128_round_integral_positive x f = frontEnd x f (ripFin x f) := by
+  ri_unfold bid128_round_integral_positive x 0x2ffc000000000000 [ripFin, ceilMain]
+
+
+
+
+/-! ### normalising a translated block -/
+
+theorem bind_ok' {ε α β : Type} (a : α) (k : α → Except ε β) : (Except.ok a : Except ε α).bind k = k a := rfl
+theorem ite_true_bool (c : Prop) [Decidable c] (b : Bool) : (if c then true else b) = (decide c || b) := by
+  by_cases h : c <;> simp [h]
+theorem ite_false_bool (c : Prop) [Decidable c] (b : Bool) : (if c then b else false) = (decide c && b) := by
+  by_cases h : c <;> simp [h]
+
+/-! ### the mask and one-half tables -/
+
+theorem maskhigh_length : Dec.Gen.BID_MASKHIGH128.length = 34 := by decide
+theorem onehalf_length : Dec.Gen.BID_ONEHALF128.length = 34 := by decide
+
+theorem mask_rows : (List.range 34).all (fun i =>
+    decide (Dec.Gen.BID_MASKHIGH128.getD i 0 = 2 ^ (Dec.Gen.BID_SHIFTRIGHT128.getD i 0 % 64) - 1) &&
+    decide (Dec.Gen.BID_ONEHALF128.getD i 0 =
+      if Dec.Gen.BID_SHIFTRIGHT128.getD i 0 % 64 = 0 then 0 else 2 ^ (Dec.Gen.BID_SHIFTRIGHT128.getD i 0 % 64 - 1))) = true := by
+  decide +kernel
+
+theorem tbl64_mask (k : UInt64) (i : Nat) (hk : k.toNat = i) (hi : i < 34) :
+    ∃ mk, tbl64 Dec.Gen.BID_MASKHIGH128 k = .ok mk ∧ mk.toNat = 2 ^ (Dec.Gen.BID_SHIFTRIGHT128.getD i 0 % 64) - 1 := by
+  have h := List.all_eq_true.1 mask_rows i (List.mem_range.2 hi)
+  simp only [Bool.and_eq_true, decide_eq_true_eq] at h
+  unfold tbl64
+  rw [hk, getElem?_getD _ _ (by rw [maskhigh_length]; exact hi)]
+  refine ⟨_, rfl, ?_⟩
+  rw [UInt64.toNat_ofNat', h.1]
+  have : 2 ^ (Dec.Gen.BID_SHIFTRIGHT128.getD i 0 % 64) ≤ 2 ^ 63 := Nat.pow_le_pow_right (by decide) (by omega)
+  have hp : 0 < 2 ^ (Dec.Gen.BID_SHIFTRIGHT128.getD i 0 % 64) := Nat.pow_pos (by decide)
+  omega
+
+theorem tbl64_half (k : UInt64) (i : Nat) (hk : k.toNat = i) (hi : i < 34) :
+    ∃ oh, tbl64 Dec.Gen.BID_ONEHALF128 k = .ok oh ∧ oh.toNat =
+      if Dec.Gen.BID_SHIFTRIGHT128.getD i 0 % 64 = 0 then 0 else 2 ^ (Dec.Gen.BID_SHIFTRIGHT128.getD i 0 % 64 - 1) := by
+  have h := List.all_eq_true.1 mask_rows i (List.mem_range.2 hi)
+  simp only [Bool.and_eq_true, decide_eq_true_eq] at h
+  unfold tbl64
+  rw [hk, getElem?_getD _ _ (by rw [onehalf_length]; exact hi)]
+  refine ⟨_, rfl, ?_⟩
+  rw [UInt64.toNat_ofNat', h.2]
+  split
+  · rfl
+  · have : 2 ^ (Dec.Gen.BID_SHIFTRIGHT128.getD i 0 % 64 - 1) ≤ 2 ^ 63 := Nat.pow_le_pow_right (by decide) (by omega)
+    exact Nat.mod_eq_of_lt (by omega)
+
+/-! ### everything the digit removal reads and computes, in one place -/
+
+/-- For a coefficient `c < 10^35` held in `C` and `1 ≤ x ≤ 34` digits to remove (`exp = −x`): the table entries the code
+reads (reciprocal `t`, shift `sh`, mask `mk`, one-half `oh`) and the 256-bit product `v`, none out of range, with their
+values and the error analysis of `recip_core`. -/
+structure Recip (C : U128) (exp : Int32) (c x : Nat) (t : U128) (v : U256) (sh : Int32) (mk oh : UInt64) (sN δ : Nat) : Prop where
+  ht : tbl128 Dec.Gen.BID_TEN2MK128 (UInt64.ofInt (toI (-exp - 1))) = .ok t
+  hv : mul_128x128_to_256 C t = .ok v
+  hsh : tblI32 Dec.Gen.BID_SHIFTRIGHT128 (UInt64.ofInt (toI (-exp - 1))) = .ok sh
+  hmk : tbl64 Dec.Gen.BID_MASKHIGH128 (UInt64.ofInt (toI (-exp - 1))) = .ok mk
+  hoh : tbl64 Dec.Gen.BID_ONEHALF128 (UInt64.ofInt (toI (-exp - 1))) = .ok oh
+  c1 : (decide (-exp - 1 ≤ 2) = true) ↔ x ≤ 3
+  c2 : (decide (-exp - 1 ≤ 21) = true) ↔ x ≤ 22
+  shv : sh.toInt = (sN : Int)
+  sA : x ≤ 3 → sN = 0
+  sB : 3 < x → x ≤ 22 → 1 ≤ sN ∧ sN ≤ 63
+  sC : 22 < x → 64 ≤ sN ∧ sN ≤ 127
+  mkv : mk.toNat = 2 ^ (sN % 64) - 1
+  ohv : oh.toNat = if sN % 64 = 0 then 0 else 2 ^ (sN % 64 - 1)
+  prod : v.w3.toNat * 2^192 + v.w2.toNat * 2^128 + v.w1.toNat * 2^64 + v.w0.toNat = c * val128 t
+  hK : val128 t * 10 ^ x = 2 ^ (128 + sN) + δ
+  dpos : 0 < δ
+  small : (c / 10 ^ x + 1) * δ < val128 t
+  hdiv : c * val128 t / 2 ^ (128 + sN) = c / 10 ^ x
+  hmod : c * val128 t % 2 ^ (128 + sN) = c / 10 ^ x * δ + c % 10 ^ x * val128 t
+
+theorem recip_exists (C : U128) (exp : Int32) (c x : Nat) (hc : val128 C = c) (hlt : c < 10 ^ 35) (hx1 : 1 ≤ x) (hx2 : x ≤ 34)
+    (hexp : exp.toInt = -(x : Int)) : ∃ t v sh mk oh sN δ, Recip C exp c x t v sh mk oh sN δ := by
+  have hi : (-exp - 1).toInt = (x : Int) - 1 := by
+    rw [i32_sub _ _ (by rw [i32_neg _ (by omega)]; omega) (by decide), i32_neg _ (by omega), hexp]
+    show - -(x : Int) - 1 = _
+    omega
+  have hidx : (UInt64.ofInt (toI (-exp - 1))).toNat = x - 1 := u64_of_i32 _ _ (by rw [hi]; omega)
+  obtain ⟨t, ht, tv⟩ := tbl128_ten2mk _ (x - 1) hidx (by omega)
+  obtain ⟨v, hv, vv⟩ := mul_128x128_to_256_spec C t
+  obtain ⟨sh, hsh, shv⟩ := tblI32_shift _ (x - 1) hidx (by omega)
+  obtain ⟨mk, hmk, mkv⟩ := tbl64_mask _ (x - 1) hidx (by omega)
+  obtain ⟨oh, hoh, ohv⟩ := tbl64_half _ (x - 1) hidx (by omega)
+  obtain ⟨δ, hK, dpos, _, small, hdiv, hmod⟩ := recip_core (x - 1) (by omega) c hlt
+  obtain ⟨_, _, r1, r2, r3⟩ := ten2mk_row (x - 1) (by omega)
+  rw [show x - 1 + 1 = x by omega, ← tv] at hK small hdiv hmod
+  rw [hc] at vv
+  refine ⟨t, v, sh, mk, oh, _, δ, ht, hv, hsh, hmk, hoh, ?_, ?_, shv, fun h => r1 (by omega), fun h1 h2 => r2 (by omega) (by omega),
+    fun h => r3 (by omega), mkv, ohv, vv, hK, dpos, small, hdiv, hmod⟩
+  · rw [decide_eq_true_eq, Int32.le_iff_toInt_le, hi, show (2 : Int32).toInt = 2 from rfl]; omega
+  · rw [decide_eq_true_eq, Int32.le_iff_toInt_le, hi, show (21 : Int32).toInt = 21 from rfl]; omega
+
+
+namespace Recip
+variable {C : U128} {exp : Int32} {c x : Nat} {t : U128} {v : U256} {sh : Int32} {mk oh : UInt64} {sN δ : Nat}
+
+/-- the quotient, first word-position case (`x ≤ 3`, no shift) -/
+theorem qA (R : Recip C exp c x t v sh mk oh sN δ) (hx : x ≤ 3) : val128 ⟨v.w2, v.w3⟩ = c / 10 ^ x := by
+  have h0 := v.w0.toNat_lt; have h1 := v.w1.toNat_lt; have h2 := v.w2.toNat_lt; have h3 := v.w3.toNat_lt
+  have hd := R.hdiv
+  rw [R.sA hx, Nat.add_zero, ← R.prod] at hd
+  rw [← hd]
+  show v.w3.toNat * 2^64 + v.w2.toNat = _
+  omega
+
+theorem shift_amounts (R : Recip C exp c x t v sh mk oh sN δ) :
+    (UInt64.ofInt (toI sh)).toNat = sN ∧ (sN ≤ 64 → (UInt64.ofInt (toI (64 - sh))).toNat = 64 - sN) ∧
+    (64 ≤ sN → (UInt64.ofInt (toI (sh - 64))).toNat = sN - 64) := by
+  have hs : sN ≤ 127 := by
+    by_cases h1 : x ≤ 3
+    · have := R.sA h1; omega
+    · by_cases h2 : x ≤ 22
+      · have := R.sB (by omega) h2; omega
+      · have := R.sC (by omega); omega
+  have shv := R.shv
+  refine ⟨u64_of_i32 _ _ shv, fun h => u64_of_i32 _ _ ?_, fun h => u64_of_i32 _ _ ?_⟩
+  · rw [i32_sub _ _ (by decide) (by omega), shv]; show (64 : Int) - _ = _; omega
+  · rw [i32_sub _ _ (by omega) (by decide), shv]; show _ - (64 : Int) = _; omega
+
+/-- the quotient, second case (`4 ≤ x ≤ 22`, shift by 1 … 63 over two words) -/
+theorem qB (R : Recip C exp c x t v sh mk oh sN δ) (hx1 : 3 < x) (hx2 : x ≤ 22) :
+    val128 ⟨v.w3 <<< UInt64.ofInt (toI (64 - sh)) ||| v.w2 >>> UInt64.ofInt (toI sh), v.w3 >>> UInt64.ofInt (toI sh)⟩
+      = c / 10 ^ x := by
+  have h0 := v.w0.toNat_lt; have h1 := v.w1.toNat_lt; have h2 := v.w2.toNat_lt; have h3 := v.w3.toNat_lt
+  obtain ⟨s1, s2⟩ := R.sB hx1 hx2
+  obtain ⟨a1, a2, _⟩ := R.shift_amounts
+  have hd := R.hdiv
+  have hhi : c * val128 t / 2 ^ 128 = v.w3.toNat * 2^64 + v.w2.toNat := by rw [← R.prod]; omega
+  rw [Nat.pow_add, ← Nat.div_div_eq_div_mul, hhi] at hd
+  rw [← hd, ← shr128 _ _ sN s1 s2 h3 h2]
+  simp only [val128, UInt64.toNat_or, UInt64.toNat_shiftLeft, UInt64.toNat_shiftRight, a1, a2 (by omega),
+    Nat.shiftLeft_eq, Nat.shiftRight_eq_div_pow]
+  rw [Nat.mod_eq_of_lt (show sN < 64 by omega), Nat.mod_eq_of_lt (show 64 - sN < 64 by omega)]
+
+/-- the quotient, third case (`23 ≤ x`, shift by 64 … 127: only the top word survives) -/
+theorem qC (R : Recip C exp c x t v sh mk oh sN δ) (hx : 22 < x) :
+    val128 ⟨v.w3 >>> UInt64.ofInt (toI (sh - 64)), 0⟩ = c / 10 ^ x := by
+  have h0 := v.w0.toNat_lt; have h1 := v.w1.toNat_lt; have h2 := v.w2.toNat_lt; have h3 := v.w3.toNat_lt
+  obtain ⟨s1, s2⟩ := R.sC hx
+  obtain ⟨_, _, a3⟩ := R.shift_amounts
+  have hd := R.hdiv
+  have hhi : c * val128 t / 2 ^ 128 = v.w3.toNat * 2^64 + v.w2.toNat := by rw [← R.prod]; omega
+  rw [Nat.pow_add, ← Nat.div_div_eq_div_mul, hhi] at hd
+  rw [← hd]
+  simp only [val128, UInt64.toNat_shiftRight, a3 s1, Nat.shiftRight_eq_div_pow, UInt64.toNat_zero, Nat.zero_mul, Nat.zero_add]
+  rw [Nat.mod_eq_of_lt (show sN - 64 < 64 by omega)]
+  have e : 2 ^ sN = 2 ^ 64 * 2 ^ (sN - 64) := by rw [← Nat.pow_add]; congr 1; omega
+  rw [e, ← Nat.div_div_eq_div_mul]
+  congr 1
+  omega
+
+/-- the discarded part `f* = c·K mod 2^(128+shift)`, first case: the two low words -/
+theorem fA (R : Recip C exp c x t v sh mk oh sN δ) (hx : x ≤ 3) :
+    v.w1.toNat * 2^64 + v.w0.toNat = c * val128 t % 2 ^ (128 + sN) := by
+  have h0 := v.w0.toNat_lt; have h1 := v.w1.toNat_lt; have h2 := v.w2.toNat_lt; have h3 := v.w3.toNat_lt
+  rw [R.sA hx, Nat.add_zero, ← R.prod]
+  omega
+
+theorem mask_and (R : Recip C exp c x t v sh mk oh sN δ) (w : UInt64) : (w &&& mk).toNat = w.toNat % 2 ^ (sN % 64) := by
+  rw [UInt64.toNat_and, R.mkv, Nat.and_two_pow_sub_one_eq_mod]
+
+/-- `f*`, second case: the masked third word and the two low words -/
+theorem fB (R : Recip C exp c x t v sh mk oh sN δ) (hx1 : 3 < x) (hx2 : x ≤ 22) :
+    (v.w2 &&& mk).toNat * 2^128 + v.w1.toNat * 2^64 + v.w0.toNat = c * val128 t % 2 ^ (128 + sN) := by
+  have h0 := v.w0.toNat_lt; have h1 := v.w1.toNat_lt; have h2 := v.w2.toNat_lt; have h3 := v.w3.toNat_lt
+  obtain ⟨s1, s2⟩ := R.sB hx1 hx2
+  rw [R.mask_and, Nat.mod_eq_of_lt (show sN < 64 by omega), Nat.pow_add, Nat.mod_mul, ← R.prod]
+  have e1 : (v.w3.toNat * 2^192 + v.w2.toNat * 2^128 + v.w1.toNat * 2^64 + v.w0.toNat) % 2^128
+      = v.w1.toNat * 2^64 + v.w0.toNat := by omega
+  have e2 : (v.w3.toNat * 2^192 + v.w2.toNat * 2^128 + v.w1.toNat * 2^64 + v.w0.toNat) / 2^128
+      = v.w3.toNat * 2^64 + v.w2.toNat := by omega
+  rw [e1, e2]
+  have e3 : (v.w3.toNat * 2^64 + v.w2.toNat) % 2 ^ sN = v.w2.toNat % 2 ^ sN := by
+    have : 2^64 = 2^sN * 2^(64 - sN) := by rw [← Nat.pow_add]; congr 1; omega
+    rw [this, ← Nat.mul_assoc, Nat.mul_comm (v.w3.toNat) (2^sN), Nat.mul_assoc, Nat.mul_add_mod]
+  rw [e3]
+  omega
+
+/-- `f*`, third case: the masked top word and the three low words -/
+theorem fC (R : Recip C exp c x t v sh mk oh sN δ) (hx : 22 < x) :
+    (v.w3 &&& mk).toNat * 2^192 + v.w2.toNat * 2^128 + v.w1.toNat * 2^64 + v.w0.toNat = c * val128 t % 2 ^ (128 + sN) := by
+  have h0 := v.w0.toNat_lt; have h1 := v.w1.toNat_lt; have h2 := v.w2.toNat_lt; have h3 := v.w3.toNat_lt
+  obtain ⟨s1, s2⟩ := R.sC hx
+  rw [R.mask_and, show sN % 64 = sN - 64 by omega, show 128 + sN = 192 + (sN - 64) by omega, Nat.pow_add, Nat.mod_mul, ← R.prod]
+  have e1 : (v.w3.toNat * 2^192 + v.w2.toNat * 2^128 + v.w1.toNat * 2^64 + v.w0.toNat) % 2^192
+      = v.w2.toNat * 2^128 + v.w1.toNat * 2^64 + v.w0.toNat := by omega
+  have e2 : (v.w3.toNat * 2^192 + v.w2.toNat * 2^128 + v.w1.toNat * 2^64 + v.w0.toNat) / 2^192 = v.w3.toNat := by omega
+  rw [e1, e2]
+  omega
+
+/-- **the inexactness test**: the discarded part is at least the reciprocal iff the remainder is non-zero -/
+theorem frac_ge (R : Recip C exp c x t v sh mk oh sN δ) :
+    val128 t ≤ c * val128 t % 2 ^ (128 + sN) ↔ c % 10 ^ x ≠ 0 := by
+  rw [R.hmod]
+  have h := R.small
+  rw [Nat.add_mul, Nat.one_mul] at h
+  generalize c / 10 ^ x * δ = a at *
+  generalize val128 t = K at *
+  constructor
+  · intro h1 h2; rw [h2, Nat.zero_mul] at h1; omega
+  · intro h1
+    have : K ≤ c % 10 ^ x * K := Nat.le_mul_of_pos_left _ (Nat.pos_of_ne_zero h1)
+    omega
+
+/-- the code's test `f* ≥ K`, first case -/
+theorem geA (R : Recip C exp c x t v sh mk oh sN δ) (hx : x ≤ 3) :
+    (decide (v.w1 > t.w1) || v.w1 == t.w1 && decide (v.w0 ≥ t.w0)) = decide (c % 10 ^ x ≠ 0) := by
+  rw [Dec.C06GenFromInt.ge128, decide_eq_decide, ← R.frac_ge, ← R.fA hx]
+  rfl
+
+/-- the code's test `f* ≥ K`, second case -/
+theorem geB (R : Recip C exp c x t v sh mk oh sN δ) (hx1 : 3 < x) (hx2 : x ≤ 22) :
+    (v.w2 &&& mk != 0 || decide (v.w1 > t.w1) || v.w1 == t.w1 && decide (v.w0 ≥ t.w0)) = decide (c % 10 ^ x ≠ 0) := by
+  have h0 := v.w0.toNat_lt; have h1 := v.w1.toNat_lt; have k0 := t.w0.toNat_lt; have k1 := t.w1.toNat_lt
+  rw [Bool.or_assoc, Dec.C06GenFromInt.ge128, Bool.eq_iff_iff, decide_eq_true_eq, ← R.frac_ge, ← R.fB hx1 hx2]
+  simp only [Bool.or_eq_true, bne_iff_ne, ne_eq, decide_eq_true_eq, ← UInt64.toNat_inj, UInt64.toNat_zero, val128]
+  omega
+
+/-- the code's test `f* ≥ K`, third case -/
+theorem geC (R : Recip C exp c x t v sh mk oh sN δ) (hx : 22 < x) :
+    (v.w3 &&& mk != 0 || v.w2 != 0 || decide (v.w1 > t.w1) || v.w1 == t.w1 && decide (v.w0 ≥ t.w0))
+      = decide (c % 10 ^ x ≠ 0) := by
+  have h0 := v.w0.toNat_lt; have h1 := v.w1.toNat_lt; have k0 := t.w0.toNat_lt; have k1 := t.w1.toNat_lt
+  rw [Bool.or_assoc, Dec.C06GenFromInt.ge128, Bool.eq_iff_iff, decide_eq_true_eq, ← R.frac_ge, ← R.fC hx]
+  simp only [Bool.or_eq_true, bne_iff_ne, ne_eq, decide_eq_true_eq, ← UInt64.toNat_inj, UInt64.toNat_zero, val128]
+  omega
+
+end Recip
+
+
+/-! ### incrementing a two-word result -/
+
+/-- the code's `res.w0 += 1; if res.w0 == 0 { res.w1 += 1 }` -/
+def inc128 (r : U128) : U128 := if (r.w0 + 1 == 0) = true then ⟨r.w0 + 1, r.w1 + 1⟩ else ⟨r.w0 + 1, r.w1⟩
+
+theorem inc128_val (r : U128) (h : val128 r + 1 < 2^128) : val128 (inc128 r) = val128 r + 1 := by
+  have h0 := r.w0.toNat_lt; have h1 := r.w1.toNat_lt
+  unfold inc128 val128 at *
+  by_cases hz : r.w0 + 1 = 0
+  · rw [if_pos (by simpa using hz)]
+    have := congrArg UInt64.toNat hz
+    rw [UInt64.toNat_add] at this
+    simp only [UInt64.toNat_add, UInt64.toNat_one, UInt64.toNat_zero] at this ⊢
+    omega
+  · rw [if_neg (by simpa using hz)]
+    have : (r.w0 + 1).toNat ≠ 0 := fun h => hz (UInt64.toNat_inj.1 h)
+    simp only [UInt64.toNat_add, UInt64.toNat_one] at this ⊢
+    omega
+
+theorem inc_res (a b SE : UInt64) (f : UInt32) :
+    (if (a + 1 == 0) = true then ((⟨a + 1, b + 1 ||| SE⟩ : U128), f) else (⟨a + 1, b ||| SE⟩, f))
+      = (⟨(inc128 ⟨a, b⟩).w0, (inc128 ⟨a, b⟩).w1 ||| SE⟩, f) := by
+  unfold inc128
+  split <;> rfl
+
+/-! ### floor -/
+
+theorem roundInt_rdn (s : Bool) (q r D : Nat) : roundInt .rdn s q r D = if r ≠ 0 ∧ s = true then q + 1 else q := by
+  by_cases h : r = 0 <;> cases s <;> simp [roundInt, roundUp, h]
+
+theorem roundInt_rup (s : Bool) (q r D : Nat) : roundInt .rup s q r D = if r ≠ 0 ∧ s = false then q + 1 else q := by
+  by_cases h : r = 0 <;> cases s <;> simp [roundInt, roundUp, h]
+
+theorem sign_ne_zero (S : UInt64) (s : Bool) (hS : S.toNat = if s then 2^63 else 0) : (S != 0) = s := by
+  cases s
+  · have : S = 0 := UInt64.toNat_inj.1 (by rw [hS]; rfl)
+    subst this; rfl
+  · have : S = 0x8000000000000000 := UInt64.toNat_inj.1 (by rw [hS]; rfl)
+    subst this; rfl
+
+theorem sign_eq_zero (S : UInt64) (s : Bool) (hS : S.toNat = if s then 2^63 else 0) : (S == 0) = !s := by
+  cases s
+  · have : S = 0 := UInt64.toNat_inj.1 (by rw [hS]; rfl)
+    subst this; rfl
+  · have : S = 0x8000000000000000 := UInt64.toNat_inj.1 (by rw [hS]; rfl)
+    subst this; rfl
+
+
 end Dec.C08GenRoundIntegral
